@@ -34,13 +34,16 @@ Definition declare_file_t (c : key) (l : str) (f : fstate) (s : st) : res st :=
   end.
 
 (* _check_declaration for a STATIC declaration: a claim held by a tree that is not the declarer is
-   "Static declaration not handed to its tree" (ConsistencyError) *)
+   "Static declaration not handed to its tree" (ConsistencyError); a colliding declaration whose
+   declarer is itself a tree fails earlier, in Decl.from_node ("Cannot phrase a creator of kind st",
+   ConsistencyError).  Both need an attached foreign claim under an attached tree (T3 violated). *)
 Definition check_declaration_node_t (c : key) (l : str) (role : N) (s : st) : res bool :=
   do cl <- existing_claim l s;
   match cl with
   | None => Ok true
   | Some (ro, cr) =>
     if (ro =? role) && key_eqb cr c then Ok false
+    else if kind_eqb (fst c) KTree then Internal 128       (* Decl.from_node: _creator_phrase has no phrase for a tree *)
     else if kind_eqb (fst cr) KTree && (role =? 61) then Internal 127
     else Usage 202
   end.
